@@ -4,7 +4,10 @@
 package drive
 
 import (
+	"math/big"
+
 	"fmt"
+	ethcmn "github.com/ethereum/go-ethereum/common"
 	"math/rand"
 	"os"
 	"path/filepath"
@@ -161,6 +164,25 @@ func Run(cfg Cfg) *Result {
 			poor := txb.Tx(txb.Send(b.Addr, a.Addr, "OLT", "900000000000"), txb.DefaultFee(), fmt.Sprintf("stray-poor-%s-%d-%d", cfg.Tag, cfg.Seed, c.H), b)
 			at := []string{"after:BeginBlock", "after:DeliverTx:0", "before:EndBlock", "before:Commit"}
 			plan.Stray = map[string][][]byte{at[int(c.H)%len(at)]: {good}, at[int(c.H+2)%len(at)]: {poor}}
+			// ... and an EVM transaction of an account that stays in the mempool while blocks that pay or charge
+			// that account are executed
+			if es := w.EthUsers; len(es) > 1 && w.P.Frankenstein != 0 && c.H > w.P.Frankenstein {
+				x, y := es[int(c.H)%len(es)], es[int(c.H+1)%len(es)]
+				n, _ := gen.KeeperNonce(r.State, x.Addr)
+				to := ethcmn.BytesToAddress(y.Addr)
+				evm := gen.OLVMTx(c, x, w.EthKeys[x.Addr.String()], n, &to, big.NewInt(5), nil, 21000, "1000000000", gen.ChainIDOf(w), fmt.Sprintf("stray-evm-%d", c.H))
+				b := []string{"before:BeginBlock", "after:BeginBlock", "before:Commit"}[int(c.H)%3]
+				plan.Stray[b] = append(plan.Stray[b], evm)
+				// every other block somebody's EVM transfer in the block pays that account
+				if c.H%2 == 0 {
+					ny, _ := gen.KeeperNonce(r.State, y.Addr)
+					tx := ethcmn.BytesToAddress(x.Addr)
+					pay := gen.OLVMTx(c, y, w.EthKeys[y.Addr.String()], ny, &tx, big.NewInt(3), nil, 21000, "1000000000", gen.ChainIDOf(w), fmt.Sprintf("pay-%d", c.H))
+					sp := hist.TxSpec{Kind: "OLVM", Bytes: pay, Note: "EVM transfer to an account whose own EVM transaction is waiting in the mempool", Signers: []string{y.Addr.String()}}
+					sp.Meta = map[string]string{"from": y.Addr.String(), "nonce": fmt.Sprint(ny), "value": "3", "gas": "21000", "price": "1000000000", "data": "", "to": x.Addr.String()}
+					plan.Txs = append(plan.Txs, sp)
+				}
+			}
 		}
 		blk, err := r.Step(plan)
 		if err != nil {
